@@ -76,7 +76,7 @@ DistInv ==
         q      == c.q * Unit(c.mode)
         orders == IF AsFound THEN {AsFoundOrder(free, c.hint)} ELSE SortedOrders(free, c.hint)
     IN \A o \in orders : DistCase(free, c.hint, q, c.mode, o)
-\* vacuity guards (must be violated = reachable; run by hand, see the README of the family)
+\* vacuity guards: each must be VIOLATED (= the situation is reachable) when put in place of the INVARIANT of the cfg (run by hand)
 SeenHintNotFromZero == ~(c.done /\ c.hint # {} /\ 0 \notin c.hint)
 SeenEnough          == ~(c.done /\ Divisible(c.mode) /\ c.q > 0 /\ SumF([n \in c.hint |-> c.free[n + 1]], c.hint) >= c.q)
 SeenShort           == ~(c.done /\ SumF([n \in c.hint |-> c.free[n + 1]], c.hint) < c.q)
